@@ -19,7 +19,10 @@ import (
 	"verifharness/internal/rng"
 )
 
-func planCmds(s *schema.Schema) (obs string) {
+func planCmds(s *schema.Schema) (obs string) { return planCmdsIndent(s, "") }
+
+// planCmdsIndent: the same with PlanOptions.Indent (cmdlog.sqlInspect(report, indent), `{{ sql . "  " }}`).
+func planCmdsIndent(s *schema.Schema, indent string) (obs string) {
 	defer func() {
 		if r := recover(); r != nil {
 			obs = "panic"
@@ -30,6 +33,7 @@ func planCmds(s *schema.Schema) (obs string) {
 		plan, err := sqlite.DefaultPlan.PlanChanges(context.Background(), "plan", []schema.Change{&schema.AddTable{T: t}}, func(o *migrate.PlanOptions) {
 			o.Mode = migrate.PlanModeDump
 			o.SchemaQualifier = new(string)
+			o.Indent = indent
 		})
 		if err != nil {
 			parts = append(parts, "err")
@@ -54,6 +58,7 @@ type printCase struct {
 	id, how, script string
 	ast             *hSchema
 	lines           [][2]string // (case, obs) per source
+	indLines        [][2]string // the same schemas printed with an indent
 	key             string
 }
 
@@ -64,6 +69,11 @@ func (c *printCase) run() {
 		}
 		ln := tokSchema(s) // tokens first: planning normalises index names in place
 		c.lines = append(c.lines, [2]string{ln, planCmds(s)})
+		// the indented text (tie of Sqlite/ExportPrintIndent.v): two spaces, a tab
+		rest := ln[strings.Index(ln, " ")+1:]
+		for _, ind := range []string{"  ", "\t"} {
+			c.indLines = append(c.indLines, [2]string{"ind=" + hx(ind) + " " + rest, planCmdsIndent(s, ind)})
+		}
 	}
 	if c.ast != nil {
 		if s, err := astToSchema(c.ast); err == nil {
@@ -131,6 +141,10 @@ func runPrint(w *out.W, tier string) {
 			if strings.Contains(ln[1], "err") {
 				w.Count("obs:has-err")
 			}
+		}
+		for k, ln := range c.indLines {
+			w.Case(fmt.Sprintf("%si%d", c.id, k), ln[0], []string{ln[1]})
+			w.Count("indent-lines")
 		}
 	}
 }
